@@ -30,7 +30,7 @@ def compile_spec(spec, metrics=False):
         else:
             h = HiFiber(e, m)
         return str(h)
-    except (ValueError, KeyError, AssertionError, IndexError, AttributeError, TypeError, NotImplementedError) as ex:
+    except Exception as ex:   # noqa: any refusal/crash of the compiler is 'rejected', never a pass
         raise Rejected("%s: %s" % (type(ex).__name__, str(ex)[:200]))
 
 
@@ -45,7 +45,7 @@ def compile_obj(spec, metrics=False):
         if metrics:
             return HiFiber(e, m, Architecture.from_str(y), Bindings.from_str(y), Format.from_str(y))
         return HiFiber(e, m)
-    except (ValueError, KeyError, AssertionError, IndexError, AttributeError, TypeError, NotImplementedError) as ex:
+    except Exception as ex:   # noqa: any refusal/crash of the compiler is 'rejected', never a pass
         raise Rejected("%s: %s" % (type(ex).__name__, str(ex)[:200]))
 
 
